@@ -150,7 +150,12 @@ Dev_TooManySortRulesPanics(e) ==
     /\ Len(e.req.sort) > Cardinality(AttrsOf(Route(e.req.frags).restype)) + 1
 \* String() writes ids, filter labels, filter JSON and page values unescaped
 Dev_StringDoesNotEscape(e) ==
-    /\ e.ev = "chain" /\ e.ret = "ok" /\ ~ChainOK(e.r) /\ e.special
+    /\ e.ev = "chain" /\ e.ret = "ok" /\ ~ChainOK(e.r) /\ e.special /\ ~e.jsonlbl
+\* (fixed) a filter label is read as the content of a JSON string but was written as
+\* it is: with a backslash, a quote, a control character or a leading brace in it the
+\* text was refused by the parser or read as another label
+Dev_LabelNotJSONEncoded(e) ==
+    /\ e.ev = "chain" /\ e.ret = "ok" /\ ~ChainOK(e.r) /\ e.jsonlbl
 \* (fixed) "r" was dropped because "rs" starts with the same letters
 Dev_IncludePruning(e) ==
     /\ e.ev = "url" /\ e.out.ret = "ok" /\ ~IncludeOK(e.req, e.out)
